@@ -121,6 +121,15 @@ def run(ctx):
             nat += 1
     big = pickle.dumps([[i] for i in range(300)], 2)     # > 255 memo entries
     bases.append((disassemble(big), big, "natural"))
+    # objects the pickler fills through APPEND(S) / SETITEM(S) on something a call created (deque, list and dict subclasses)
+    import collections
+    for obj in (collections.deque([1, 2]), genvalues.verif_nat.ListSub([1, "a"]), collections.OrderedDict(a=1, b=[2])):
+        for proto in (2, 4):
+            d = pickle.dumps(obj, proto)
+            try:
+                bases.append((disassemble(d), d, "natural-objcont"))
+            except OutOfDomain:
+                pass
     items, recs = [], []
     for ops, data, prof in bases:
         for mode in MODES:
@@ -185,6 +194,11 @@ def run(ctx):
         v = verdicts[rec["id"]]
         if rec["refused"]:
             refused += 1
+            if rec["callee"] == "sink":     # the property speaks of EVERY pickle ending in STOP: the helper may not refuse one
+                failures.append({"sig": f"{rec['mode']}: the helper refuses a pickle that ends in STOP ({rec.get('why_refused', '?')})"
+                                        + (" [base appends to / sets items on an object]" if rec["prof"] == "natural-objcont" else ""),
+                                 "detail": f"base={' '.join(o['o'] for o in rec['base'][:14])} hex={rec['base_hex'][:60]}",
+                                 "n": len(rec["base"]), "replay_obj": {"property": "C08", "record": rec, "verdict": v}})
             continue
         if rec["base_loads"] and (rec["bcalls"] or len(rec["base"]) >= 4):
             nontriv.add((rec["base_hex"], rec["mode"]))
